@@ -3,29 +3,23 @@
 (* variant) and prints every completed walk as the list of transactions        *)
 (* [op, c, v, t, cfg]: vdriver replays each list on the real chain (amounts    *)
 (* x100 token-units, t x100 s).  A walk alternates a clock step (0..MaxStep)   *)
-(* and a transaction.  Requested values strictly between pour and max_pour     *)
-(* (where the model predicts the limit overshoot) are produced only in walks   *)
-(* with midsel = 1, so that the number of replayed walks that can reach the    *)
-(* predicted overshoot stays small.                                            *)
+(* and a transaction.                                                          *)
 EXTENDS MC_Faucet, Sequences, Json
-CONSTANT GenLen, MidOneIn
-VARIABLES hist, midsel, phase
-gvars == <<vars, hist, midsel, phase>>
-GInit == Init /\ hist = <<>> /\ midsel \in 1..MidOneIn /\ phase = "op"
+CONSTANT GenLen
+VARIABLES hist, phase
+gvars == <<vars, hist, phase>>
+GInit == Init /\ hist = <<>> /\ phase = "op"
 Step(op, c, v, nc) == hist' = Append(hist, [op |-> op, c |-> c, v |-> v, t |-> now, cfg |-> nc])
-Mid(v) == v > cfg.pour /\ v < cfg.maxPour
-G_Pour == \E c \in Client, v \in Values :
-            /\ (Mid(v) => midsel = 1)
-            /\ Pour(c, v) /\ Step("pour", c, v, cfg)
+G_Pour == \E c \in Client, v \in Values : Pour(c, v) /\ Step("pour", c, v, cfg)
 G_Refill == \E c \in Client, v \in Refills : Refill(v) /\ Step("refill", c, v, cfg)
 G_Update == \E nc \in Configs : Update(nc) /\ Step("update", "owner", 0, nc)
 G_Clock == /\ phase = "clock" /\ phase' = "op"
            /\ \E d \in 0..MaxStep : now + d <= MaxTime /\ now' = now + d
-           /\ UNCHANGED <<bal, cfg, used, ustart, gused, gstart, ovars, hist, midsel>>
+           /\ UNCHANGED <<bal, cfg, used, ustart, gused, gstart, ovars, hist>>
 G_Op == /\ phase = "op" /\ Len(hist) < GenLen /\ phase' = "clock"
-        /\ (G_Pour \/ G_Refill \/ G_Update) /\ UNCHANGED midsel
+        /\ (G_Pour \/ G_Refill \/ G_Update)
 G_Done == /\ phase = "clock" /\ Len(hist) = GenLen /\ phase' = "done"
-          /\ UNCHANGED <<vars, hist, midsel>>
+          /\ UNCHANGED <<vars, hist>>
 GNext == (G_Clock /\ Len(hist) < GenLen) \/ G_Op \/ G_Done
 GSpec == GInit /\ [][GNext]_gvars
 GPrint == (phase = "done") => PrintT(<<"BEHAVIOUR", ToJson(hist)>>)
